@@ -173,6 +173,29 @@ for _s in SKELETONS:
     _mk_roundtrip(_s)
 
 
+CONCRETE_IDS = [(False, "DEU", "Muc", 4, 3, "T", 12), (False, "USA", "US101", 33, 2, "I", [3, 25]), (True, "ZAM", "Tjunction", 1, 110, "P", 110),
+                (False, "CHN", "Sha", 10, 20, "S", [10, 2, 131]), (True, "ESP", "Mad", 123, 45, "T", [7, 70]), (False, "DEU", "A9", 2, 1, "I", 9),
+                (True, "USA", "Lanker", 1, None, None, None), (False, "ITA", "Siderno", 21, None, None, None)]
+
+
+@obligation("C13", "scenario-id.roundtrip.multi-digit-ids", functions=F,
+            bounds="concrete ids with multi-digit map / configuration / prediction numbers and prediction lists (characters of a rendered number are "
+                   "not visible to the symbolic strings, so digit-wise handling is followed on representatives): print, parse back, print again")
+def roundtrip_concrete(V):
+    c = CONCRETE_IDS[V.choice("id", len(CONCRETE_IDS))]
+    sid = ScenarioID(c[0], c[1], c[2], c[3], c[4], c[5], c[6], VERSION)
+    printed = str(sid)
+    try:
+        back = ScenarioID.from_benchmark_id(printed, VERSION)
+    except Exception as e:  # noqa: BLE001
+        V.fail("parsing a printed id failed", f"{printed}: {e!r}")
+        return
+    V.prove("parsing the printed id gives an equal id that prints identically", back == sid and str(back) == printed and
+            (back.cooperative, back.country_id, back.map_name, back.map_id, back.configuration_id, back.obstacle_behavior) ==
+            (sid.cooperative, sid.country_id, sid.map_name, sid.map_id, sid.configuration_id, sid.obstacle_behavior) and
+            (back.prediction_id == sid.prediction_id))
+
+
 @obligation("C13", "scenario-id.roundtrip.cooperative.every-country", functions=F, max_paths={"quick": 3000, "thorough": 3000},
             bounds="cooperative ids with configuration, every country code of the table")
 def roundtrip_countries(V):
